@@ -214,6 +214,9 @@ func (h *HyperLogLog32) UnmarshalBinary(b []byte) error {
 	if err != nil {
 		return err
 	}
+	if m := uint64(1) << h.p; h.p < 4 || w32 < h.p || m == 0 || uint64(len(h.register)) != m {
+		return fmt.Errorf("card: invalid sketch: precision=%d registers=%d", h.p, len(h.register))
+	}
 	return nil
 }
 
